@@ -72,7 +72,7 @@ Print Assumptions C05_applied_balances_exact.
    and changes nothing; the same call without the third transfer is applied; a destination at
    2^64-1 rejects a transfer of 1. *)
 Example C05_example :
-  let cfg := {| cfg_fee := true; cfg_events := false; cfg_miner := 0; cfg_strict_ids := false |} in
+  let cfg := {| cfg_fee := true; cfg_events := false; cfg_miner := 0; cfg_strict_ids := true |} in
   let A b := {| ac_bal := b; ac_nonce := 0; ac_txn := -1; ac_round := 0 |} in
   let st := {| st_accts := [(1, A 50); (3, A 100); (4, A 18446744073709551615)]; st_nodes := [] |} in
   let tx := {| tx_hash := 0; tx_type := TSC; tx_from := 3; tx_to := 1; tx_value := 60; tx_fee := 5; tx_nonce := 1 |} in
